@@ -80,6 +80,17 @@ func (n *Property) Inject(metas []*Meta) error {
 		return nil
 	}
 
+	//a component may have been replaced by a post processor with an object of another type: report it instead of panicking in reflect
+	var elemType = n.Type
+	if elemType.Kind() == reflect.Slice || elemType.Kind() == reflect.Array {
+		elemType = elemType.Elem()
+	}
+	for _, m := range metas {
+		if !m.Value.Type().AssignableTo(elemType) {
+			return errors.Errorf("inject '%s': component '%s' of type %s is not assignable to %s", n, m.Name(), m.Value.Type().String(), elemType.String())
+		}
+	}
+
 	switch n.Type.Kind() {
 	case reflect.Slice, reflect.Array:
 		n.Value.Set(reflect.MakeSlice(n.Type, len(metas), len(metas)))
